@@ -30,22 +30,26 @@ class BuildLock:
 
 # flavours that are a base flavour plus SKINNY_VERIF hook switches (so that a replay file can name them)
 FLAVOUR_SPECS = {
-    "cthook_w32": ("cthook", ("SKINNY_VERIF", "SKINNY_VERIF_64BIT=0")),
-    "cthook_w32_u0_nosimd": ("cthook", ("SKINNY_VERIF", "SKINNY_VERIF_64BIT=0", "SKINNY_VERIF_UNALIGNED=0", "SKINNY_VERIF_VEC128_MATH=0", "SKINNY_VERIF_VEC256_MATH=0")),
-    "cthook_neutral": ("cthook", ("SKINNY_VERIF", "SKINNY_VERIF_LITTLE_ENDIAN=0", "SKINNY_VERIF_VEC128_MATH=0", "SKINNY_VERIF_VEC256_MATH=0")),
+    "plain_mk256off": ("plain", (), ("VEC256_CFLAGS=",)),          # the 256-bit back end compiled out the way options.mak documents
+    "plain_nosimd": ("plain", ("SKINNY_VERIF", "SKINNY_VERIF_VEC128_MATH=0", "SKINNY_VERIF_VEC256_MATH=0"), ()),
+    "cthook_w32": ("cthook", ("SKINNY_VERIF", "SKINNY_VERIF_64BIT=0"), ()),
+    "cthook_w32_u0_nosimd": ("cthook", ("SKINNY_VERIF", "SKINNY_VERIF_64BIT=0", "SKINNY_VERIF_UNALIGNED=0", "SKINNY_VERIF_VEC128_MATH=0", "SKINNY_VERIF_VEC256_MATH=0"), ()),
+    "cthook_neutral": ("cthook", ("SKINNY_VERIF", "SKINNY_VERIF_LITTLE_ENDIAN=0", "SKINNY_VERIF_VEC128_MATH=0", "SKINNY_VERIF_VEC256_MATH=0"), ()),
 }
 
 
-def build_flavour(ctx, flavour, targets=("objsim",), base=None, defs=()):
+def build_flavour(ctx, flavour, targets=("objsim",), base=None, defs=(), makevars=()):
     """library objects of this flavour from the repo's working tree + the harness linked against them.
     `flavour` names the output directory; `base` (default: the same) is the buildlib flavour, `defs` extra -D switches (SKINNY_VERIF hook)."""
     if base is None and flavour in FLAVOUR_SPECS:
-        base, defs = FLAVOUR_SPECS[flavour]
+        base, defs, makevars = FLAVOUR_SPECS[flavour]
     with BuildLock(ctx.B):
         libdir = os.path.join(ctx.B, flavour, "lib")
         cmd = [sys.executable, os.path.join(ctx.V, "mk", "buildlib.py"), base or flavour, libdir, "--repo", ctx.repo]
         for d in defs:
             cmd += ["--def", d]
+        for mv in makevars:
+            cmd += ["--makevar", mv]
         p = subprocess.run(cmd, capture_output=True, text=True)
         if p.returncode != 0:
             sys.stderr.write(p.stdout + p.stderr)
@@ -85,7 +89,7 @@ OBJSIM = {
     "C09": dict(runs=(100000, 3000000), flavours=[("plain", 0.7, 0), ("asan", 0.5, 1)], level="exploration"),
     "C10": dict(runs=(100000, 2500000), flavours=[("plain", 1.0, 0), ("o0", 1.0, 0), ("asan", 0.3, 0)], level="exploration"),
     "C11": dict(runs=(40000, 1200000), flavours=[("plain", 1.0, 0), ("o0", 1.0, 0), ("asan", 1.0, 0)], level="exploration", digests=True),
-    "C13": dict(runs=(0, 0), flavours=[("plain", 1.0, 0), ("o0", 1.0, 0)], level="fault_enumeration"),
+    "C13": dict(runs=(0, 0), flavours=[("plain", 1.0, 0), ("o0", 1.0, 0), ("plain_mk256off", 1.0, 0), ("plain_nosimd", 1.0, 0)], level="fault_enumeration"),
     "C14": dict(runs=(100000, 3000000), flavours=[("plain", 1.0, 0), ("asan", 0.25, 1)], level="exploration"),
     "C15": dict(runs=(150000, 4000000), flavours=[("plain", 1.0, 0), ("asan", 0.25, 1)], level="exploration"),
     "C16": dict(runs=(40000, 600000), flavours=[("plain", 1.0, 0), ("asan", 0.25, 0), ("o0", 0.5, 0)], level="fault_enumeration"),
